@@ -207,6 +207,20 @@ def carry_pool():
     return _CARRY
 
 
+def list_safe(name):
+    """may several values of this class follow each other in a SequenceOf without delimiters?  (conservative:
+    a Choice, or a Sequence whose elements are all context tagged or required un-contexted primitives; a Sequence
+    ending in an un-contexted list, e.g. AtomicReadFileACKAccessMethodRecordAccess, swallows its successors —
+    `wf_ty (TSeqOf t)` is false for it and no table makes a list of it)"""
+    d = cdesc(name)
+    if d['kind'] == 'choice':
+        return True
+    # ... and at least one required element: an all-optional Sequence (SetpointReference) can encode to nothing and
+    # would vanish from a list (`nullable`; again wf_ty (TSeqOf t) is false)
+    return d['kind'] == 'seq' and all(e['ctx'] is not None or (e['type']['k'] == 'atom' and not e['opt']) for e in d['elements']) \
+        and any(not e['opt'] for e in d['elements'])
+
+
 def carried_coq_type(c):
     form, name = c[0], c[1]
     if form == 'atom':
@@ -234,7 +248,7 @@ def gen_carried(rng):
             v = leaf_value(klass, rng)
             return ('tags', [leaf_tag(klass, v)], ('atom', nm, norm_leaf(klass(v).value if nm != 'Null' else ())))
         name = rng.choice(pool['ctxprim'] if rng.random() < 0.7 else pool['all'])
-        n = 1 if form == 'class' else rng.choice([0, 1, 2, 3])
+        n = 1 if form == 'class' else rng.choice([0, 1, 2, 3] if list_safe(name) else [0])
         trees, tags = [], []
         for _ in range(n):
             tr = gen_class(name, rng, 3)
@@ -629,7 +643,17 @@ def impl_cast_history(c, tags):
     klass = carried_py_type(c)
     out = []
     for _ in range(2):
-        out += canon_call(lambda: guarded(lambda: a.cast_out(klass)), lambda r: shape_cast(c, r))
+        try:
+            r = guarded(lambda: a.cast_out(klass), 3)
+        except _Watchdog:
+            out += [1, 17]      # the loop does not terminate: the model's OutOfFuel (only for lists of a nullable
+            continue            # item type, e.g. ArrayOf(SetpointReference) on a foreign tag; no table has one)
+        except RecursionError:
+            raise
+        except Exception as e:
+            out += [1, exc_code(e)]
+            continue
+        out += [0] + shape_cast(c, r)
     return out + canon_tags([tt(x) for x in a.tagList.tagList])
 
 
@@ -944,6 +968,8 @@ def systematic_carried(rng):
         for form in ('class', rng.choice(['seqof', 'listof', 'arrayof'])):
             trees, tags = [], []
             try:
+                if form != 'class' and not list_safe(name):
+                    raise ValueError
                 for _ in range(1 if form == 'class' else rng.choice([1, 2, 3])):
                     tr = gen_bounded(name, rng, limit=40)
                     if features(tr):
@@ -1278,6 +1304,7 @@ def replay(payload):
         tr = ast.literal_eval(f['tree'])
         name = f['type']
         print('implementation now:', {k: v for k, v in (roundtrip_failure(name, tr) or {'kind': 'round trip holds'}).items() if k != 'tree'})
+        print('histories now     :', {k: v for k, v in (history_failure(name, tr) or {'kind': 'observation does not disturb: holds'}).items() if k != 'tree'})
         import core
         c = case_encode(name, tr)
         got, err = core.coq_eval(COQ_IMPORTS, c.coq)
